@@ -26,6 +26,21 @@ func (i *envInformator) GetSeqNo() int32      { return i.seq }
 func (i *envInformator) GetServerSalt() int64 { return i.salt }
 func (i *envInformator) GetAuthKey() []byte   { return i.key }
 
+// flipInformator: the salt changes after it has been read once
+type flipInformator struct {
+	envInformator
+	next  int64
+	reads int
+}
+
+func (i *flipInformator) GetServerSalt() int64 {
+	i.reads++
+	if i.reads > 1 {
+		return i.next
+	}
+	return i.salt
+}
+
 func pick64(rng *rand.Rand) int64 {
 	switch rng.Intn(7) {
 	case 0:
@@ -150,6 +165,18 @@ func init() {
 							})
 							if !bytes.Equal(keep, pkt) {
 								fail = "the packet returned by Serialize changed when another message was serialised afterwards"
+							}
+						}
+						// the receive loop may adopt a new salt at any moment (no lock is shared with the send path): whichever salt
+						// a packet carries, it is one consistent packet
+						if fail == "" {
+							fi := &flipInformator{envInformator: envInformator{key: key, salt: salt, sid: sid, seq: seq}, next: salt ^ 0x5a5a5a5a}
+							var p2 []byte
+							var e2 error
+							recoverTo(func() { p2, e2 = (&messages.Encrypted{Msg: body, MsgID: mid}).Serialize(fi, ack) })
+							s2, _, mid2, _, b2, ok := openC2S(key, p2)
+							if e2 != nil || !ok || (s2 != salt && s2 != fi.next) || mid2 != mid || !bytes.Equal(b2, body) {
+								fail = fmt.Sprintf("with the salt changing while the packet is sealed, the packet is not one a conformant server opens (err=%v opened=%v salt read %d times)", e2, ok, fi.reads)
 							}
 						}
 					case "s2c":
